@@ -179,16 +179,22 @@ Fixpoint mats_close (rtol : float) (A B : list fmat) : bool :=
   | _, _ => false
   end.
 
-(* verdict of one LPR case: oracle residual within eps, outputs within rtol, rank_diff equal *)
+(* rank_diff alone (used where alpha is below the pinv cut-off and only rank_diff is compared) *)
+Definition rank_case_ok (inp : rig_in) (sv : list float) (obs_rd : nat) (rd_gated : bool) : bool :=
+  leb (sv_resid_f (xprime_f inp) sv) 0x1p-30
+  && (rd_gated || Nat.eqb (rank_diff_model (length (hd [] (concat (r_train inp)))) sv) obs_rd).
+
+(* verdict of one LPR case: oracle residual within eps, outputs within rtol, singular-value
+   hint consistent with the model's matrix (sum sv = trace), rank_diff equal *)
 Definition lpr_case_ok (inp : rig_in) (sv : list float) (eps rtol : float)
            (obs : list (list float)) (obs_rd : nat) (rd_gated : bool) : bool :=
   leb (hyp_resid_f inp) eps
   && mat_close rtol (lpr_model inp) obs
-  && (rd_gated || Nat.eqb (rank_diff_model (length (hd [] (concat (r_train inp)))) sv) obs_rd).
+  && rank_case_ok inp sv obs_rd rd_gated.
 
 Definition cpr_case_ok (inp : rig_in) (comp_dims : list nat) (sv : list float) (eps rtol : float)
            (obs_cpr : fmat) (obs_lcpr : list fmat) (obs_rd : nat) (rd_gated : bool) : bool :=
   leb (hyp_resid_f inp) eps
   && mat_close rtol (cpr_model inp comp_dims) obs_cpr
   && mats_close rtol (lcpr_model inp comp_dims) obs_lcpr
-  && (rd_gated || Nat.eqb (rank_diff_model (length (hd [] (concat (r_train inp)))) sv) obs_rd).
+  && rank_case_ok inp sv obs_rd rd_gated.
